@@ -158,6 +158,29 @@ theorem decide_blocked_iff (g : Graph) (hg : g.WF) (s t : V) (inc : List V) (str
 
 /-! ### the explicit-path shortcut -/
 
+/-- **the shortcut only returns admissible paths**: whatever `explicit_path` (repaired) returns follows existing links,
+visits no element twice and passes the code's own `ispart` test against the whole include list -/
+theorem explicitPath_sound (g : Graph) (omsOf : V → Option Nat) (els : Nat → List V) (sR dR : Option V)
+    (inc : List V) (s t : V) (p : List V) (h : explicitPath g omsOf els sR dR inc s t = some p) :
+    IsWalk g p ∧ p.Nodup ∧ ispart inc p = true := by
+  unfold explicitPath at h
+  split at h
+  · simp at h
+  · split at h
+    · simp only at h
+      split at h
+      · split at h
+        · simp at h
+        · split at h
+          next hcond =>
+            simp only [Option.some.injEq] at h
+            subst h
+            simp only [Bool.and_eq_true] at hcond
+            exact ⟨(isWalkB_iff g _).1 hcond.1, uniqueOrdered_nodup _, hcond.2⟩
+          · simp at h
+      · simp at h
+    · simp at h
+
 /-- **an explicit route is the only route.**  `p` is the route spelled by the include list (the concatenated OMS of
 `explicit_path`).  If every hop `a → b` of `p` is forced — `b` is the only successor of `a` (transceiver → its ROADM, line
 element → next element), or `a` is the only predecessor of `b` and `b` lies on every route crossing the list (first
